@@ -297,6 +297,61 @@ def replay(mod, pid, path):
     return 0
 
 
+def run_fuzz_campaigns(mod, pid, tier, seed, procs):
+    """atheris campaigns: one process per shard for FUZZ['seconds'][tier] seconds (a time budget that ends is
+    inconclusive, never a violation).  Returns None when the check has no target / the tier asks for none / atheris
+    is not installed (then said so in the evidence)."""
+    import random
+    import subprocess
+    import tempfile
+    spec = getattr(mod, "FUZZ", None)
+    if not spec or not spec.get("seconds", {}).get(tier):
+        return None
+    seconds = int(os.environ.get("VERIF_FUZZ_SECONDS") or spec["seconds"][tier])
+    probe = subprocess.run([sys.executable, "-B", "-c", "import sys; sys.path.insert(0, %r); import atheris" % os.path.join(VERIF, ".deps")],
+                           stdout=subprocess.DEVNULL, stderr=subprocess.DEVNULL)
+    if probe.returncode != 0:
+        return {"execs": 0, "skipped": "atheris is not installed (run ./setup.sh)", "violations": []}
+    n = min(procs, N_SHARDS)
+    with tempfile.TemporaryDirectory(prefix="verif-fuzz-") as tmp:
+        running = []
+        for i in range(n):
+            corpus = os.path.join(tmp, "corpus%d" % i)
+            os.makedirs(corpus)
+            if i % 2:      # odd shards start from a few small random inputs, even shards from an empty corpus
+                rnd = random.Random(mix_seed(seed, i, 77))
+                for k in range(24):
+                    with open(os.path.join(corpus, "seed%d" % k), "wb") as fh:
+                        fh.write(bytes(rnd.randrange(256) for _ in range(rnd.randrange(4, 40))))
+            env = dict(os.environ, FUZZ_PID=pid, FUZZ_OUT=tmp, FUZZ_SHARD=str(i))
+            cmd = [sys.executable, "-B", os.path.join(VERIF, spec["target"]), corpus, "-max_total_time=%d" % seconds,
+                   "-seed=%d" % (mix_seed(seed, i, 78) % (2 ** 31) or 1), "-timeout=300", "-rss_limit_mb=4096", "-max_len=64"]
+            running.append(subprocess.Popen(cmd, env=env, cwd=tmp, stdout=subprocess.DEVNULL, stderr=subprocess.DEVNULL))
+        for proc in running:
+            try:
+                proc.wait(timeout=seconds + 600)
+            except subprocess.TimeoutExpired:
+                proc.kill()
+        info = {"campaigns": n, "seconds_each": seconds, "execs": 0, "distinct_nontrivial_per_campaign": [], "known": 0,
+                "samples": [], "violations": [], "ended": "time budget (inconclusive by itself)"}
+        for i in range(n):
+            path = os.path.join(tmp, "fuzz_{}_{}.json".format(pid, i))
+            if not os.path.exists(path):
+                raise HarnessError("fuzz campaign {} left no statistics".format(i))
+            with open(path) as fh:
+                st = json.load(fh)
+            info["execs"] += st["execs"]
+            info["known"] += st["known"]
+            info["distinct_nontrivial_per_campaign"].append(st["nontrivial"])
+            if i == 0:
+                info["samples"] = st["samples"]
+            if st.get("violations"):
+                with open(os.path.join(VERIF, st["replay"])) as fh:
+                    rep = json.load(fh)
+                info["violations"].append((rep["case"], st["detail"], rep.get("signature")))
+        return info
+
+
 def run(mod, pid, tier, seed, procs, t0):
     # 1. corpus / finding examples, in-process
     stats = Stats(mod, pid)
@@ -327,6 +382,15 @@ def run(mod, pid, tier, seed, procs, t0):
                 dst.extend(lst[:2] if shard else lst)
         agg["violations"].extend(res["violations"])
         agg["viol_count"] += res["viol_count"]
+
+    # 2b. coverage-guided fuzz campaigns (thorough tier of the checks that define FUZZ)
+    fuzz_info = run_fuzz_campaigns(mod, pid, tier, seed, procs)
+    if fuzz_info:
+        agg["evaluations"] += fuzz_info["execs"]
+        agg["sources"]["atheris"] = fuzz_info["execs"]
+        for v in fuzz_info["violations"]:
+            agg["violations"].append(v)
+            agg["viol_count"] += 1
 
     # 3. report
     findings = load_findings()
@@ -386,6 +450,7 @@ def run(mod, pid, tier, seed, procs, t0):
             "shards": N_SHARDS,
             "per_shard_evaluations": shard_info,
             "exhaustive_subdomains": getattr(mod, "EXHAUSTIVE", {}).get(tier, []),
+            "fuzzing": dict((k, v) for k, v in (fuzz_info or {}).items() if k != "violations"),
             "replays": replay_paths,
         },
         "assumptions": list(mod.ASSUMPTIONS),
